@@ -2,7 +2,7 @@
    fails to compile if Props/C08.v is weakened, renamed or given other hypotheses. *)
 From Coq Require Import SpecFloat.
 Require Import Base Value Float PrintOptions ParseOptions Utf8 Reader Scan Num NumberOps Parser.
-Require Import ReaderProofs ScanProofs TokenProofs RoundtripProofs OptionProofs.
+Require Import ReaderProofs ScanProofs TokenProofs RoundtripProofs OptionProofs FrameProofs.
 Require Import Lexpr.Props.C08.
 
 Check (C08_nil :
@@ -96,6 +96,25 @@ Check (C08_token_frame_partial :
   (b = 63 -> ro_char ro1 = ro_char ro2) ->
   (symbolish b = true -> ro_kw_postfix ro1 = ro_kw_postfix ro2 /\ ro_nil ro1 = ro_nil ro2 /\ ro_t ro1 = ro_t ro2) ->
   parse_token ro1 alpha fast std_parse fuel b r = parse_token ro2 alpha fast std_parse fuel b r).
+
+Check (C08_input_frame :
+  forall alpha fast std_parse ro1 ro2 (W : bytes) k,
+  (In 35 W -> ro_kw_octo ro1 = ro_kw_octo ro2 /\ ro_racket ro1 = ro_racket ro2) ->
+  (forall b, In b W -> is_digit b = true -> ro_digit ro1 = ro_digit ro2) ->
+  (In 34 W -> ro_string ro1 = ro_string ro2) ->
+  (In 91 W -> ro_brackets ro1 = ro_brackets ro2) ->
+  (In 58 W -> ro_kw_prefix ro1 = ro_kw_prefix ro2 /\ ro_kw_postfix ro1 = ro_kw_postfix ro2) ->
+  (In 63 W -> ro_char ro1 = ro_char ro2) ->
+  (In 110 W -> ro_nil ro1 = ro_nil ro2) ->
+  (In 116 W -> ro_t ro1 = ro_t ro2) ->
+  from_trait ro1 alpha fast std_parse k (bytes_events W) = from_trait ro2 alpha fast std_parse k (bytes_events W)).
+
+Check (C08_input_frame_nonvacuous :
+  let W := s2b "(a (b . c) 'd)" in
+  default_ro <> elisp_ro /\
+  ~ In 35 W /\ (forall b, In b W -> is_digit b = false) /\ ~ In 34 W /\ ~ In 91 W /\ ~ In 58 W /\ ~ In 63 W /\ ~ In 110 W /\ ~ In 116 W /\
+  from_trait default_ro (fun _ => true) true dec_to_f64 SrcIo (bytes_events W) =
+  from_trait elisp_ro (fun _ => true) true dec_to_f64 SrcIo (bytes_events W)).
 
 Check (C08_nonvacuous :
   let run ro txt := from_trait ro (fun _ => true) true dec_to_f64 SrcSlice (bytes_events txt) in
